@@ -5,15 +5,15 @@ Import ListNotations.
 Open Scope Q_scope.
 
 (* ------------------------------------------------------------------ shares of the gen rows *)
-(* bus level: with the slack equation satisfied and no voltage dependent demand at the bus, the gen rows of a
-   participating bus deviate in total by  - w_bus * s * baseMVA *)
+(* bus level: with the slack equation satisfied the gen rows of a participating bus deviate in total by
+   - w_bus * s * baseMVA  (pfsoln adds the demand the solver used, so ZIP loads at the bus do not disturb this) *)
 Lemma bus_deviation n ref k v sinj wb s :
   memn k ref = true -> split_ok n k = true ->
-  ds_mism n k v sinj wb s == 0 -> re (Sload n k v) == PD n k ->
-  gen_p n ref k sinj - sumf g_pg (gens_on_at n k) == - (wb * s * base n).
+  ds_mism n k v sinj wb s == 0 ->
+  gen_p n ref k v sinj - sumf g_pg (gens_on_at n k) == - (wb * s * base n).
 Proof.
-  intros Hr Hs Hm Hz. rewrite (gen_p_sum _ _ _ _ Hr Hs), p_bus_eq.
-  unfold ds_mism in Hm. rewrite qadd_correct, !qmul_correct, mism_p_eq, Hz in Hm. lra.
+  intros Hr Hs Hm. rewrite (gen_p_sum _ _ _ _ _ Hr Hs), p_bus_eq.
+  unfold ds_mism in Hm. rewrite qadd_correct, !qmul_correct, mism_p_eq in Hm. lra.
 Qed.
 
 Lemma filter_single {A} (p : A -> bool) a : p a = true -> filter p [a] = [a].
@@ -25,10 +25,10 @@ Lemma gen_share n ref k v sinj wb s W g :
   memn k ref = true -> In g (gens_on_at n k) -> g_ref g = true ->
   ((1 < length (gens_on_at n k))%nat -> 0 < sumf g_w (filter g_ref (gens_on_at n k))) ->
   wb * W == sumf g_w (filter g_ref (gens_on_at n k)) ->
-  ds_mism n k v sinj wb s == 0 -> re (Sload n k v) == PD n k ->
-  dev n ref g sinj * W == - (s * base n) * g_w g.
+  ds_mism n k v sinj wb s == 0 ->
+  dev n ref g v sinj * W == - (s * base n) * g_w g.
 Proof.
-  intros Hr Hin Hg Hsw HW Hm Hz.
+  intros Hr Hin Hg Hsw HW Hm.
   destruct (gens_on_at_In _ _ _ Hin) as [Hb Ho].
   set (G := gens_on_at n k) in *.
   assert (Hex : existsb g_ref G = true) by (apply existsb_exists; exists g; tauto).
@@ -36,53 +36,53 @@ Proof.
   assert (Hs : split_ok n k = true).
   { unfold split_ok. fold G. destruct (Nat.eqb (length G) 1) eqn:E1; [reflexivity|].
     apply Nat.eqb_neq in E1. cbn [orb]. rewrite Hex, andb_true_r. apply Nat.ltb_lt. lia. }
-  pose proof (bus_deviation n ref k v sinj wb s Hr Hs Hm Hz) as HD. fold G in HD.
+  pose proof (bus_deviation n ref k v sinj wb s Hr Hs Hm) as HD. fold G in HD.
   unfold dev. rewrite qsub_correct.
   destruct (Nat.ltb 1 (length G)) eqn:L.
   - (* several rows: weighted split *)
     apply Nat.ltb_lt in L. specialize (Hsw L).
     assert (Hq : qltb 0 (sumf g_w (filter g_ref G)) = true) by (apply qltb_lt; exact Hsw).
-    assert (E : pg_after n ref g sinj ==
-                g_pg g + (p_bus n k sinj - sumf g_pg (filter (fun x => negb (g_ref x)) G) - sumf g_pg (filter g_ref G))
+    assert (E : pg_after n ref g v sinj ==
+                g_pg g + (p_bus n k v sinj - sumf g_pg (filter (fun x => negb (g_ref x)) G) - sumf g_pg (filter g_ref G))
                          * g_w g / sumf g_w (filter g_ref G)).
     { unfold pg_after. rewrite Hb, Ho, Hr. fold G. apply Nat.ltb_lt in L. rewrite L, Hg, Hq. cbn [andb]. qnorm. reflexivity. }
-    rewrite E. rewrite (gen_p_sum _ _ _ _ Hr Hs) in HD.
+    rewrite E. rewrite (gen_p_sum _ _ _ _ _ Hr Hs) in HD.
     rewrite (sumf_partition g_ref g_pg G) in HD.
     set (sw := sumf g_w (filter g_ref G)) in *.
     set (A := sumf g_pg (filter g_ref G)) in *. set (B := sumf g_pg (filter (fun x => negb (g_ref x)) G)) in *.
     assert (Hne : ~ sw == 0) by lra.
-    setoid_replace ((g_pg g + (p_bus n k sinj - B - A) * g_w g / sw - g_pg g) * W)
-      with ((p_bus n k sinj - (A + B)) * g_w g * (W / sw)) by (field; exact Hne).
+    setoid_replace ((g_pg g + (p_bus n k v sinj - B - A) * g_w g / sw - g_pg g) * W)
+      with ((p_bus n k v sinj - (A + B)) * g_w g * (W / sw)) by (field; exact Hne).
     rewrite HD. setoid_replace (W / sw) with (/ wb) by (rewrite <- HW; field; split; intros E0; apply Hne; rewrite <- HW, E0; ring).
     field. intros E0. apply Hne. rewrite <- HW, E0. ring.
   - (* a single row takes the whole bus deviation *)
     apply Nat.ltb_ge in L. assert (H1 : length G = 1%nat) by lia.
     destruct (length_one _ H1) as [g0 E0]. rewrite E0 in Hin. destruct Hin as [<-|[]].
-    assert (E : pg_after n ref g0 sinj == p_bus n k sinj).
+    assert (E : pg_after n ref g0 v sinj == p_bus n k v sinj).
     { unfold pg_after. rewrite Hb, Ho, Hr. fold G. rewrite E0. cbn. reflexivity. }
-    rewrite E. rewrite (gen_p_sum _ _ _ _ Hr Hs), E0, sumf_cons, sumf_nil in HD.
+    rewrite E. rewrite (gen_p_sum _ _ _ _ _ Hr Hs), E0, sumf_cons, sumf_nil in HD.
     rewrite E0, (filter_single _ _ Hg), sumf_cons, sumf_nil in HW.
     setoid_replace (g_w g0) with (wb * W) by (rewrite HW; ring).
-    setoid_replace (p_bus n k sinj - g_pg g0) with (- (wb * s * base n)) by (rewrite <- HD; ring).
+    setoid_replace (p_bus n k v sinj - g_pg g0) with (- (wb * s * base n)) by (rewrite <- HD; ring).
     ring.
 Qed.
 (* two participants: deviation / weight is the same value (cross-multiplied form, no division) *)
-Lemma equal_ratio n ref s W sinj1 sinj2 g1 g2 :
+Lemma equal_ratio n ref s W v1 v2 sinj1 sinj2 g1 g2 :
   ~ W == 0 ->
-  dev n ref g1 sinj1 * W == - (s * base n) * g_w g1 ->
-  dev n ref g2 sinj2 * W == - (s * base n) * g_w g2 ->
-  dev n ref g1 sinj1 * g_w g2 == dev n ref g2 sinj2 * g_w g1.
+  dev n ref g1 v1 sinj1 * W == - (s * base n) * g_w g1 ->
+  dev n ref g2 v2 sinj2 * W == - (s * base n) * g_w g2 ->
+  dev n ref g1 v1 sinj1 * g_w g2 == dev n ref g2 v2 sinj2 * g_w g1.
 Proof.
   intros HW H1 H2.
-  assert (E1 : dev n ref g1 sinj1 == - (s * base n) * g_w g1 / W) by (rewrite <- H1; field; exact HW).
-  assert (E2 : dev n ref g2 sinj2 == - (s * base n) * g_w g2 / W) by (rewrite <- H2; field; exact HW).
+  assert (E1 : dev n ref g1 v1 sinj1 == - (s * base n) * g_w g1 / W) by (rewrite <- H1; field; exact HW).
+  assert (E2 : dev n ref g2 v2 sinj2 == - (s * base n) * g_w g2 / W) by (rewrite <- H2; field; exact HW).
   rewrite E1, E2. field. exact HW.
 Qed.
 (* non-participants keep their setpoint *)
-Lemma non_participant_keeps n ref g sinj :
+Lemma non_participant_keeps n ref g v sinj :
   memn (g_bus g) ref = false \/ (g_ref g = false /\ (1 < length (gens_on_at n (g_bus g)))%nat) ->
-  dev n ref g sinj == 0.
-Proof. intros H. unfold dev. rewrite (pg_after_keeps _ _ _ _ H), qsub_correct. ring. Qed.
+  dev n ref g v sinj == 0.
+Proof. intros H. unfold dev. rewrite (pg_after_keeps _ _ _ _ _ H), qsub_correct. ring. Qed.
 
 (* ------------------------------------------------------------------ weight normalisation (one island) *)
 Lemma sumf_key_pick (keys : list nat) a c : NoDup keys -> In a keys ->
@@ -162,23 +162,37 @@ Qed.
 (* the xward weights are paired with sorted-unique PQ buses: with two xwards in descending bus order the weights swap *)
 Definition wit_xwb : list xwbr := [mkXb 3 true; mkXb 2 true].
 Definition wit_wsrc : list wsrc := [mkW 0 1 false; mkW 7 1 true; mkW 8 2 true].
-Lemma xward_weight_order_refuted :
+Lemma xward_weight_order_old_refuted :
   G10w wit_xwb = false /\
-  exists bw, normalise wit_wsrc wit_xwb [[0; 1; 2; 3]%nat] 4 = NOk bw /\
-             bw_lookup bw 3 == 2 # 4 /\ bw_lookup bw 2 == 1 # 4.      (* xward 0 (bus 3) has weight 1, xward 1 (bus 2) weight 2 *)
-Proof. split; [reflexivity|]. eexists. split; [vm_compute; reflexivity|]. split; vm_compute; reflexivity. Qed.
+  (exists bw, normalise_old wit_wsrc wit_xwb [[0; 1; 2; 3]%nat] 4 = NOk bw /\
+              bw_lookup bw 3 == 2 # 4 /\ bw_lookup bw 2 == 1 # 4) /\   (* old: xward 0 (bus 3, weight 1) got 2/4 *)
+  (exists bw, normalise wit_wsrc wit_xwb [[0; 1; 2; 3]%nat] 4 = NOk bw /\
+              bw_lookup bw 3 == 1 # 4 /\ bw_lookup bw 2 == 2 # 4).      (* repaired: own weights *)
+Proof.
+  split; [reflexivity|]. split; eexists; (split; [vm_compute; reflexivity|]); split; vm_compute; reflexivity.
+Qed.
+(* repaired pairing: the j-th weight of the xward gens meets the PQ bus of the j-th in-service xward *)
+Lemma xward_pairing xws j b : nth_error (xward_pq_buses xws) j = Some b <->
+  exists x, nth_error (filter x_on xws) j = Some x /\ x_pq x = b.
+Proof.
+  unfold xward_pq_buses. rewrite nth_error_map. destruct (nth_error (filter x_on xws) j) as [x|]; cbn; split.
+  - intros H. injection H as <-. exists x. tauto.
+  - intros (y & E & <-). injection E as <-. reflexivity.
+  - discriminate.
+  - intros (y & E & _). discriminate.
+Qed.
 
 (* ------------------------------------------------------------------ xward results *)
-Lemma xward_single n others x pd :
+Lemma xward_single_old n others x pd :
   G10x n others [x] = true ->
-  exists r, xward_p pd others [x] = XOk [Some r] /\ r == xr_ps x + (pd (xr_k x) - PD n (xr_k x)).
+  exists r, xward_p_old pd others [x] = XOk [Some r] /\ r == xr_ps x + (pd (xr_k x) - PD n (xr_k x)).
 Proof.
   unfold G10x. intros H.
   apply andb_true_iff in H. destruct H as [H Hraw]. apply andb_true_iff in H. destruct H as [H Hw].
   apply andb_true_iff in H. destruct H as [Hins Hon]. apply qltb_lt in Hw. apply qeqb_eq in Hraw.
   assert (Hw0 : qeqb (xr_w x) 0 = false).
   { destruct (qeqb (xr_w x) 0) eqn:E; [|reflexivity]. apply qeqb_eq in E. rewrite E in Hw. discriminate Hw. }
-  unfold xward_p. cbn [existsb map]. rewrite Hon, Hw0. cbn [negb andb orb xw_loop].
+  unfold xward_p_old. cbn [existsb map]. rewrite Hon, Hw0. cbn [negb andb orb xw_loop].
   unfold xw_step. cbn [filter]. rewrite Hins, Nat.eqb_refl. cbn [andb map].
   assert (Ha : qeqb (sumf Qabs [xr_w x]) 0 = false).
   { destruct (qeqb (sumf Qabs [xr_w x]) 0) eqn:E; [|reflexivity]. apply qeqb_eq in E.
@@ -187,25 +201,31 @@ Proof.
   cbn [b2q]. qnorm. rewrite (Qabs_pos (xr_w x)) by (apply Qlt_le_weak; exact Hw).
   rewrite <- Hraw. field. lra.
 Qed.
-(* the variable part of the single xward equals  w_bus * s * baseMVA  (consumption up = generation down) *)
-Lemma xward_share n ref others x v sinj wb s r :
-  G10x n others [x] = true ->
+(* repaired rule: every participating xward gets  w_bus*s*baseMVA * w_x / (weight of its bus)  on top of ps
+   (consumption up = generation down), for any number of xwards and any other elements at the bus *)
+Lemma xward_share n ref vs xws x sinj wb s :
   memn (xr_k x) ref = true -> has_gen n (xr_k x) = false ->
-  ds_mism n (xr_k x) v sinj wb s == 0 -> re (Sload n (xr_k x) v) == PD n (xr_k x) ->
-  xward_p (fun k => PD_after n ref k sinj) others [x] = XOk [Some r] ->
-  r - xr_ps x == wb * s * base n.
+  ~ xw_weight x == 0 -> ~ xw_bus_weight xws (xr_k x) == 0 ->
+  ds_mism n (xr_k x) (vof vs (xr_k x)) sinj wb s == 0 ->
+  (xward_row n vs (fun k => PD_after n ref k sinj) xws x - qmul (xr_ps x) (b2q (xr_on x))) * xw_bus_weight xws (xr_k x)
+  == wb * s * base n * xw_weight x.
 Proof.
-  intros G Hr Hg Hm Hz Hx.
-  destruct (xward_single n others x (fun k => PD_after n ref k sinj) G) as (r' & E & Er).
-  rewrite E in Hx. injection Hx as <-. rewrite Er.
+  intros Hr Hg Hw Hwb Hm. unfold xward_row.
+  destruct (qeqb (xw_weight x) 0) eqn:E0; [apply qeqb_eq in E0; contradiction|].
+  destruct (qeqb (xw_bus_weight xws (xr_k x)) 0) eqn:E1; [apply qeqb_eq in E1; contradiction|].
   unfold PD_after. rewrite Hr. unfold has_gen in Hg. apply negb_false_iff in Hg. rewrite Hg. cbn [andb].
-  unfold ds_mism in Hm. rewrite qadd_correct, !qmul_correct, mism_p_eq, Hz in Hm.
-  apply Nat.eqb_eq, length_zero_iff_nil in Hg.
-  rewrite Hg, sumf_nil in Hm. qnorm. lra.
+  unfold ds_mism in Hm. rewrite qadd_correct, !qmul_correct, mism_p_eq in Hm.
+  apply Nat.eqb_eq, length_zero_iff_nil in Hg. rewrite Hg, sumf_nil in Hm.
+  set (SL := re (Sload n (xr_k x) (vof vs (xr_k x)))) in *.
+  qnorm. field_simplify_eq; [|exact Hwb]. nra.
 Qed.
+(* non-participating xwards keep their setpoint *)
+Lemma xward_keeps n vs pd xws x : xw_weight x == 0 -> xward_row n vs pd xws x == qmul (xr_ps x) (b2q (xr_on x)).
+Proof. intros H. unfold xward_row. apply qeqb_eq in H. rewrite H. qnorm. ring. Qed.
+
 (* refutation: two in-service xwards with positive weights on different buses get each other's variable part *)
 Definition wit_x2 : list xwrow := [mkXw 3 3 5 1 true true; mkXw 2 2 3 2 true true].
-Lemma xward_extraction_refuted :
-  exists pd, xward_p pd [] wit_x2 = XOk [Some (5 + (pd 3%nat - 5) + (pd 2%nat - 3)); Some (3 + (pd 3%nat - 5) + (pd 2%nat - 3))]%Q
+Lemma xward_extraction_old_refuted :
+  exists pd, xward_p_old pd [] wit_x2 = XOk [Some (5 + (pd 3%nat - 5) + (pd 2%nat - 3)); Some (3 + (pd 3%nat - 5) + (pd 2%nat - 3))]%Q
              /\ pd 3%nat = 6 /\ pd 2%nat = 5.
 Proof. exists (fun k => match k with 3%nat => 6 | 2%nat => 5 | _ => 0 end). vm_compute. repeat split. Qed.
